@@ -242,6 +242,11 @@ class Interp:
             if key in p.vals:
                 return p.vals[key]
             return TOP
+        if k == "stmtexpr":
+            # GNU statement expression ({ ...; value; }): its statements are CFG elements of their own and were evaluated already;
+            # the value is that of the last one
+            ch = [c for c in e.get("e", []) if isinstance(c, dict)]
+            return self.ev(p, ch[-1]) if ch and ch[-1].get("k") in ("ref", "var", "cast", "int") else TOP
         if k == "int":
             return e["v"] if isinstance(e["v"], int) else int(e["v"])
         if k == "null":
@@ -298,6 +303,8 @@ class Interp:
                 self.write(p, key, new, e.get("ln"))
                 return old if op.startswith("post") else new
             v = self.ev(p, e["e"])
+            if op == "__extension__":
+                return v
             if op == "!":
                 t = truth(v)
                 return TOP if t is TOP else (0 if t else 1)
